@@ -102,6 +102,10 @@ struct Swarm {
     tys: [u32; 4],
     names: Vec<(String, Lit)>,
     block_pct: u64,
+    /// per cent chance that an item repeats the item before it, and that a block starts with the instruction
+    /// that precedes the block (evolved programs are full of runs of one instruction; anything remembered from
+    /// one instruction to the next shows on such runs)
+    echo_pct: u64,
 }
 
 fn gen_ins(g: &mut Xo, sw: &Swarm, depth: usize) -> Ins {
@@ -181,12 +185,24 @@ fn gen_ins(g: &mut Xo, sw: &Swarm, depth: usize) -> Ins {
 }
 
 fn gen_items(g: &mut Xo, sw: &Swarm, depth: usize, max_items: usize) -> Vec<Prog> {
+    gen_items_led(g, sw, depth, max_items, None)
+}
+
+fn gen_items_led(g: &mut Xo, sw: &Swarm, depth: usize, max_items: usize, lead: Option<&Prog>) -> Vec<Prog> {
     let n = g.urange(0, max_items);
-    let mut v = Vec::with_capacity(n);
+    let mut v: Vec<Prog> = Vec::with_capacity(n + 1);
+    if let Some(l) = lead {
+        v.push(l.clone());
+    }
     for _ in 0..n {
+        let echo = sw.echo_pct > 0 && g.below(100) < sw.echo_pct;
+        let prev_ins: Option<Prog> = v.iter().rev().find(|p| matches!(p, Prog::I(_))).cloned();
         if depth > 0 && g.below(100) < sw.block_pct {
             let inner = if g.chance(1, 6) { 1 } else { 5 };
-            v.push(Prog::B(gen_items(g, sw, depth - 1, inner)));
+            let lead = if echo { prev_ins.as_ref() } else { None };
+            v.push(Prog::B(gen_items_led(g, sw, depth - 1, inner, lead)));
+        } else if let (true, Some(p)) = (echo, v.last().cloned()) {
+            v.push(p);
         } else {
             v.push(Prog::I(gen_ins(g, sw, depth)));
         }
@@ -243,6 +259,7 @@ pub fn gen_scenario(g: &mut Xo, bias: Bias) -> VmSc {
         tys,
         names,
         block_pct: if bias == Bias::Growth { 10 + g.below(30) } else { g.below(25) },
+        echo_pct: *g.pick(&[0u64, 0, 10, 30]),
     };
 
     let depth = match bias {
@@ -509,6 +526,7 @@ pub fn gen_long(g: &mut Xo) -> VmSc {
         tys: [2, 1, 1, 0],
         names: sc.init.inputs.clone(),
         block_pct: 0,
+        echo_pct: 0,
     };
     let mut body: Vec<Prog> = (0..g.urange(1, 8)).map(|_| Prog::I(gen_ins(g, &sw, 0))).collect();
     match g.below(6) {
